@@ -23,6 +23,14 @@ CLAIMED = {
    text="Seeded chains on namecoin/dogecoin mixing versions below/at/above the activation version with generated AuxPoW sections (legacy/segwit parent coinbase, branch lengths 0..253, any masks) and the six other coins as negative control with the same versions; all five callbacks compared with the reference model, --verify on half the runs, under read chunking (sections straddle refills), layouts and worker counts.",
    note="Input-universal property: deciding power is seeded sampling against a hand-written serialiser; simulation contributes environment independence only.",
    tech="deterministic simulation, benign configuration: seeded generation + reference model under injected short reads / layouts / worker counts"),
+ "C07": dict(cat="exploration", ref="§5 C07",
+   text="History simulation against a step-wise reference UTXO state machine: every history of <=3 (thorough <=4) operations over six operation kinds x all block-boundary placements is enumerated, longer histories (fan-in/out, same-block spends, unknown outpoints, double references, duplicate txids, >256 outputs) are sampled; the real program is run for every prefix of small histories (-e h) and for mid-history ranges, with writer capacities from 1 byte so the dump is flushed in pieces, and the row set of the unspent dump must equal the model's map after the same step.",
+   note="Trusted: reference UTXO machine and script reference (canonical templates only in this generator). Sampling beyond the enumerated small histories.",
+   tech="deterministic simulation of operation histories: bounded-exhaustive + seeded histories checked step by step (per prefix) against an executable reference state machine"),
+ "C08": dict(cat="exploration", ref="§5 C08",
+   text="Same history simulation with address reuse; balances must equal the reference group-by-sum at every prefix, and must equal the aggregation of the program's own unspent dump produced from the same data directory and range (two whole-program runs related by an invariant).",
+   note="Values kept below 2^64 in total (overflow is outside the statement). Same trusted base as C07.",
+   tech="deterministic simulation of operation histories: reference model + cross-run conservation invariant (balances = aggregate(unspent))"),
 }
 PENDING_REASON = "check not built yet in this revision (claimed in DESIGN.md; will move to checks when its oracle is registered)"
 ALL = ["C%02d" % i for i in range(1, 18)]
